@@ -178,12 +178,18 @@ def cert_view(der):
         spki = hx(pk.public_bytes(serialization.Encoding.DER, serialization.PublicFormat.SubjectPublicKeyInfo))
     except Exception as e:
         return None
-    v = {"key": key, "spki": spki, "version_v3": cert.version == _x509.Version.v3,
-         "subject_len": str(len(cert.subject)),
-         "subject_cns": [a.value if isinstance(a.value, str) else repr(a.value)
-                         for a in cert.subject.get_attributes_for_oid(_NameOID.COMMON_NAME)],
-         "pem": hx(cert.public_bytes(serialization.Encoding.PEM)),
-         "san": None, "eku": None, "bc_ca": None, "apple_nonce": None, "key_desc": None}
+    try:
+        v = {"key": key, "spki": spki, "version_v3": cert.version == _x509.Version.v3,
+             "subject_len": str(len(cert.subject)),
+             "subject_cns": [a.value if isinstance(a.value, str) else repr(a.value)
+                             for a in cert.subject.get_attributes_for_oid(_NameOID.COMMON_NAME)],
+             "pem": hx(cert.public_bytes(serialization.Encoding.PEM)),
+             "san": None, "eku": None, "bc_ca": None, "apple_nonce": None, "key_desc": None}
+    except ValueError as e:
+        # cryptography parses certificate fields lazily: a certificate can load and still raise when the verifier reads
+        # one particular field. Which field is read first depends on the format; the model's CertView is eager, so such
+        # certificates (corrupted ones, met by the bit-flip streams) are outside the model.
+        raise OutOfModel("x509-lazy-field:" + str(e)[:60])
     try:
         exts = cert.extensions
         v["exts_ok"] = True
